@@ -17,20 +17,44 @@ are never read by any operation and only serve to state `C03_recency`.
 namespace PwVerif.Data
 open PwVerif PwVerif.Conn
 
-inductive Val | nd | d (k : Nat)
+/-- `nd` is THE marker `NOT_DATA` — the library recognises "no data" by identity (`is NOT_DATA`)
+and so does the model: every test below is `≠ .nd`.  `nd2` is another instance of the marker's
+class (what `object.__new__(NotData)` or an unpickler that does not go through the singleton
+yields): it looks like the marker but is not identical to it, so it counts as data. -/
+inductive Val | nd | d (k : Nat) | nd2
   deriving DecidableEq, Repr, Inhabited
 
 /-- exception classes: `runtime` = RuntimeError (locked input), `type` = TypeError,
 `recursion` = RecursionError (receiver chain deeper than the recursion limit / cyclic),
 `conn` = ChannelConnectionError, `value` = ValueError, `copy` = ValueCopyError,
-`readiness` = ReadinessError -/
-inductive Err | runtime | type | recursion | conn | value | copy | readiness
+`readiness` = ReadinessError, `serial` = `pickle.dumps` / `loads` of a round trip raised (AttributeError
+for a macro input without receiver, KeyError for a label that cannot be resolved inside the
+composite, or whatever `connect` / the receiver setter raise during `__setstate__`) -/
+inductive Err | runtime | type | recursion | conn | value | copy | readiness | serial
   deriving DecidableEq, Repr, Inhabited
+
+/-- behaviour switches of `__getstate__` / `__setstate__` (the same two as in C07's model):
+`revIter` — `_restore_connections_from_strings` reconnects in REVERSE stored order, so that the
+prepending `connect` rebuilds every input's list as it was (pinned tree: stored order, i.e. every
+input with several connections comes back with its priority reversed — KF-C07-1);
+`pushLinks` — value links are re-forged through the `value_receiver` setter, which pushes the
+sender's value through the receiver's setter (pinned tree); otherwise by plain assignment -/
+structure Cfg where
+  revIter   : Bool
+  pushLinks : Bool
+  deriving DecidableEq, Repr
+
+def Cfg.pinned : Cfg := ⟨false, true⟩
+def Cfg.repaired : Cfg := ⟨true, false⟩
 
 structure Params where
   admits : Nat → Val → Bool
   hintOk : Nat → Nat → Bool
   fn     : Nat → List Val → List Val
+  /-- what a value comes back as from `pickle.loads(pickle.dumps(v))`; the current tree maps the
+  marker to the marker (`NotData.__reduce__` names the global singleton) and data to an equal copy -/
+  copyVal : Val → Val := id
+  cfg     : Cfg := Cfg.pinned
 
 structure S where
   kind    : Nat → Kind
@@ -237,6 +261,114 @@ def runNode (P : Params) (fuel : Nat) (s : S) (n : Nat) (kw : List (Nat × Arg))
            .invoked (some e))
       else (s2, .err .readiness)
 
+/-! ## pickle round trip (`__getstate__` / `__setstate__` of channels, nodes, composites, macros)
+
+`pickle.loads(pickle.dumps(obj))` (also through cloudpickle) builds a NEW object graph; the
+history goes on with the copy in place of the original.  What the current tree does:
+
+* `Channel.__getstate__` drops `connections`, `DataChannel.__getstate__` drops `_value_receiver`;
+  everything else of a channel (`_value`, `type_hint`, `strict_hints`, owner) and the node's
+  `running` / `failed` travel in `__dict__`;
+* `Composite.__getstate__` stores `[(inp, out) for child in self for inp in child.inputs for out in
+  inp.connections]` as label pairs, `__setstate__` looks every pair up **by label among its own
+  children** (`KeyError` otherwise) and calls `inp.connect(out)` in stored order;
+* `Macro.__getstate__` stores `(c.label, (c.value_receiver.owner.label, c.value_receiver.label))` for
+  EVERY macro input (`AttributeError` if one has no receiver) and the linked child outputs;
+  `__setstate__` re-forges them through the `value_receiver` setter, which pushes the sender's value
+  through the receiver's setter.
+
+Composites are restored innermost first.  A failure anywhere means `dumps` / `loads` raised: no
+copy exists and the original is untouched. -/
+
+/-- static description of one composite of the pickled object; the lookup tables are the label
+resolution `children[owner label].panel[label]`, computed from the labels alone -/
+structure Comp where
+  /-- `for child in self for inp in child.inputs` -/
+  ins     : List Nat
+  /-- channel ↦ output of a direct child with the same (owner label, label) -/
+  resOut  : List (Nat × Nat)
+  /-- the macro's own inputs in panel order (`[]` for a workflow) -/
+  mins    : List Nat
+  /-- channel ↦ input of a direct child with the same (owner label, label) -/
+  resIn   : List (Nat × Nat)
+  /-- `for child in self for c in child.outputs` -/
+  couts   : List Nat
+  /-- channel ↦ the macro's own output with the same label -/
+  resMOut : List (Nat × Nat)
+  deriving Repr
+
+/-- the fresh copies: channels of the pickled object (`scope`) come back without connections and
+without receivers, holding a copy of their value.  Channels outside the scope (node-level round
+trip: the retired original is cut off) lose their connections and receivers into the scope. -/
+def rtClear (P : Params) (s : S) (scope : List Nat) : S :=
+  { s with
+    conns := fun c => if c ∈ scope then [] else (s.conns c).filter (fun x => decide (x ∉ scope)),
+    recv := fun c => if c ∈ scope then none else
+      match s.recv c with
+      | some r => if r ∈ scope then none else some r
+      | none => none,
+    val := fun c => if c ∈ scope then P.copyVal (s.val c) else s.val c }
+
+/-- `_get_connections_as_strings` -/
+def strings (s : S) (dom : List Nat) : List (Nat × Nat) :=
+  dom.flatMap fun i => (s.conns i).map fun o => (i, o)
+
+/-- `_restore_connections_from_strings` -/
+def restoreConns (P : Params) (st : S) (res : List (Nat × Nat)) : List (Nat × Nat) → S × Option Err
+  | [] => (st, none)
+  | (i, o) :: r =>
+    match res.lookup o with
+    | none => (st, some .serial)
+    | some o' =>
+      match connectS P st i o' with
+      | (st', none) => restoreConns P st' res r
+      | (st', some e) => (st', some e)
+
+/-- re-forging one value link -/
+def forge (P : Params) (fuel : Nat) (st : S) (a b : Nat) : S × Option Err :=
+  if P.cfg.pushLinks then link P fuel st a (some b)
+  else if st.kind b ≠ st.kind a then (st, some .type)
+  else ({ st with recv := updF st.recv a (some b) }, none)
+
+/-- the two loops of `Macro.__setstate__`; `must` = the state lists every channel of the panel
+(macro inputs), otherwise only those that have a receiver (child outputs) -/
+def restoreLinks (P : Params) (fuel : Nat) (must : Bool) (pre : S) (res : List (Nat × Nat)) (st : S) :
+    List Nat → S × Option Err
+  | [] => (st, none)
+  | a :: r =>
+    match pre.recv a with
+    | none => if must then (st, some .serial) else restoreLinks P fuel must pre res st r
+    | some b =>
+      match res.lookup b with
+      | none => (st, some .serial)
+      | some b' =>
+        match forge P fuel st a b' with
+        | (st', none) => restoreLinks P fuel must pre res st' r
+        | (st', some e) => (st', some e)
+
+def restoreComp (P : Params) (fuel : Nat) (pre st : S) (C : Comp) : S × Option Err :=
+  let saved := strings pre C.ins
+  match restoreConns P st C.resOut (if P.cfg.revIter then saved.reverse else saved) with
+  | (st1, some e) => (st1, some e)
+  | (st1, none) =>
+    match restoreLinks P fuel true pre C.resIn st1 C.mins with
+    | (st2, some e) => (st2, some e)
+    | (st2, none) => restoreLinks P fuel false pre C.resMOut st2 C.couts
+
+def restoreAll (P : Params) (fuel : Nat) (pre st : S) : List Comp → S × Option Err
+  | [] => (st, none)
+  | C :: r =>
+    match restoreComp P fuel pre st C with
+    | (st', none) => restoreAll P fuel pre st' r
+    | (st', some e) => (st', some e)
+
+/-- the whole round trip of the object whose channels are `scope` and whose composites, innermost
+first, are `comps` -/
+def roundTrip (P : Params) (fuel : Nat) (s : S) (scope : List Nat) (comps : List Comp) : S × Option Err :=
+  match restoreAll P fuel s (rtClear P s scope) comps with
+  | (s', none) => (s', none)
+  | (_, some _) => (s, some .serial)
+
 /-! ## operations -/
 
 inductive Op
@@ -252,6 +384,7 @@ inductive Op
   | run (n : Nat) (kw : List (Nat × Arg))
   | setStrict (c : Nat) (b : Bool)
   | flag (n : Nat) (running failed : Bool)
+  | roundTrip (scope : List Nat) (comps : List Comp)
   deriving Repr
 
 def wrap (r : S × Option Err) : S × Out :=
@@ -272,6 +405,7 @@ def step (P : Params) (fuel : Nat) (s : S) : Op → S × Out
   | .run n kw => runNode P fuel s n kw
   | .setStrict c b => ({ s with strict := updF s.strict c b }, .ok)
   | .flag n r f => ({ s with running := updF s.running n r, failed := updF s.failed n f }, .ok)
+  | .roundTrip scope comps => wrap (roundTrip P fuel s scope comps)
 
 def run (P : Params) (fuel : Nat) (s : S) (ops : List Op) : S :=
   ops.foldl (fun s o => (step P fuel s o).1) s
